@@ -176,6 +176,14 @@ def make_special_case(rng, kind):
         if kind in ("vacuum", "single_edge"):
             name = "tadpole" if kind == "single_edge" else rng.choice(["bubble", "sunrise", "tadpole_pair", "triangle_tadpole", "tadpole"])
             edges = list(gen.CATALOGUE[name]); massive = [True] * len(edges); ext = []
+        elif kind == "vacuum_mixed":
+            # no external vertex, some but not all edges flagged massive: a subset is mass-momentum spanning iff it holds every
+            # massive edge, whatever vertices it touches
+            name = rng.choice(["bubble", "sunrise", "triangle", "box", "kite", "double_triangle"])
+            edges = list(gen.CATALOGUE[name]); ext = []
+            massive = [False] * len(edges)
+            for i in rng.sample(range(len(edges)), rng.randint(1, len(edges) - 1)):
+                massive[i] = True
         else:
             name = rng.choice(["two_bubbles", "triangle_x_bubble", "bubble_x_tadpole"])
             edges = {"two_bubbles": [(0, 1), (0, 1), (2, 3), (2, 3)], "triangle_x_bubble": [(0, 1), (1, 2), (2, 0), (3, 4), (3, 4)],
